@@ -17,8 +17,8 @@ theorem SemInv.congr {ctx : Ctx} {q s : Query} {G : MG Name} (h : SemInv ctx q G
         ⟨hd ▸ jc.okW, fun v hv => hd ▸ jc.okN v hv, jc.cover, jc.within, jc.plain, fun S hS σ => hd ▸ jc.marg S hS σ⟩⟩
     · exact Or.inr ⟨fun pop c => he ▸ hnj pop c, he ▸ hwf⟩
   · intro ha' hs'
-    obtain ⟨t1, t2, t3, t4⟩ := h.t0 (ha ▸ ha') (hs ▸ hs')
-    exact ⟨hg ▸ t1, t2, he ▸ t3, hg ▸ t4⟩
+    obtain ⟨t1, t2, t3, t4, t5⟩ := h.t0 (ha ▸ ha') (hs ▸ hs')
+    exact ⟨hg ▸ t1, t2, he ▸ t3, hg ▸ t4, hg ▸ t5⟩
 
 /-! ### line 3 -/
 
